@@ -16,8 +16,8 @@ import project as PJ
 Z3_TIMEOUT_MS = 20000
 
 
-def initialized_solver(p, **solver_kw):
-    b = B.build(p)
+def initialized_solver(p, build_kw=None, **solver_kw):
+    b = B.build(p, **(build_kw or {}))
     for i, ind in enumerate(p["inds"]):
         if b.inds[i] is not None:
             ind["solname"] = b.inds[i].name
@@ -27,12 +27,12 @@ def initialized_solver(p, **solver_kw):
     return b, s
 
 
-def fresh_z3(solver, p, b):
+def fresh_z3(solver, p, b, assertions=None):
     """A private z3 solver holding the library's assertions (the library's own solver object
-    is left untouched)."""
+    is left untouched).  `assertions`: use these instead (e.g. parsed from an SMT-LIB export)."""
     z = z3.Solver()
     z.set("timeout", Z3_TIMEOUT_MS)
-    z.add(solver._solver.assertions())
+    z.add(solver._solver.assertions() if assertions is None else assertions)
     if not p["user_horizon"]:
         # no user horizon: the comparison is made inside the bounded window 0..H
         z.add(b.problem._horizon <= p["H"])
@@ -48,10 +48,10 @@ def domain_guard(b, p):
     return z3.BoolVal(True)
 
 
-def soundness(p, b, solver, V, max_witnesses=8):
+def soundness(p, b, solver, V, max_witnesses=8, assertions=None):
     """Returns (witnesses, inconclusive).  A witness is an abstract schedule admitted by the
     implementation that is not a behaviour of Timeline."""
-    z = fresh_z3(solver, p, b)
+    z = fresh_z3(solver, p, b, assertions)
     if V:
         z.add(z3.Not(z3.Or([PJ.match(b, p, v) for v in V.values()])))
     out = []
@@ -71,9 +71,9 @@ def soundness(p, b, solver, V, max_witnesses=8):
     return out, inconclusive
 
 
-def completeness(p, b, solver, V):
+def completeness(p, b, solver, V, assertions=None):
     """Returns (lost, inconclusive, checked): valid schedules the implementation does not admit."""
-    z = fresh_z3(solver, p, b)
+    z = fresh_z3(solver, p, b, assertions)
     lost, inconclusive, checked = [], 0, 0
     for k, v in V.items():
         if v.get("unspec"):
